@@ -634,8 +634,50 @@ def lossy_cache_keys(ctx, rid):
                                 "value is built from their values: two requests that differ only in a keyword value (fullTree=True / "
                                 "fullTree=False) share one cache entry" % (f.qual, lossy[0] if lossy else ""))],
                         detail={"function": f.qual, "parameter": p, "key_components": [norm(e) for e in comps]})
+            # plain parameters the cached value is built from: the key must hold the parameter itself -- a projection of it
+            # (its __name__, its type, its text) is shared by different objects
+            plain = [q for q in f.params() if q not in star and q not in ("self", "cls")]
+            for q in plain:
+                if not any(isinstance(x, ast.Name) and x.id == q for x in ast.walk(st.value)) and depends_on(st.value, q, assigns) is None:
+                    continue
+                comps = [e for e in key_exprs if any(isinstance(x, ast.Name) and x.id == q for x in ast.walk(e))]
+                n += 1
+                full = any(norm(e) == q for e in comps)
+                projected = bool(comps) and all(
+                    all(not (isinstance(x, ast.Name) and x.id == q) or _under_projection(e, x) for x in ast.walk(e)) for e in comps)
+                key = "cache-key::%s::%s" % (f.qual, q)
+                r.idiom(rid, full, key, "%s:%d" % (f.module.rel, st.lineno),
+                        "cache key component for %s not recognised: %s" % (q, [norm(e) for e in comps]),
+                        wrong=[(projected, "%s caches a value built from `%s` under a key that holds only a projection of it (%s): two different "
+                                           "objects with the same projection -- a second copy of xml.etree.ElementTree loaded beside the first, a test "
+                                           "double with the same __name__ -- share one entry, so what a call returns depends on which of them an "
+                                           "earlier call used" % (f.qual, q, [norm(e)[:50] for e in comps][:2])),
+                               (not comps, "%s caches a value built from `%s` under a key that does not contain it" % (f.qual, q))],
+                        detail={"function": f.qual, "parameter": q, "key_components": [norm(e) for e in comps]})
     if n < 1:
         raise AnalysisError("%s: no factory cache keyed on a star parameter found" % rid)
+
+
+def depends_on(expr, name, assigns, seen=()):
+    for x in ast.walk(expr):
+        if isinstance(x, ast.Name):
+            if x.id == name:
+                return name
+            if x.id in assigns and x.id not in seen:
+                d = depends_on(assigns[x.id], name, assigns, seen + (x.id,))
+                if d:
+                    return d
+    return None
+
+
+def _under_projection(expr, name_node) -> bool:
+    """the occurrence `name_node` inside expr is read only through an attribute / type() / str() / repr() / id() projection"""
+    for x in ast.walk(expr):
+        if isinstance(x, ast.Attribute) and x.value is name_node:
+            return True
+        if isinstance(x, ast.Call) and isinstance(x.func, ast.Name) and x.func.id in ("type", "str", "repr", "id", "len") and name_node in x.args:
+            return True
+    return False
 
 
 def _value_determined_by(f, val, key_names):
@@ -839,10 +881,12 @@ def thorough(ctx):
 def mutants():
     from ..selftest import TextMutant as T
     return [
-        T("module-cache-placeholder", "_utils.py", "            moduleCache[name][args][kwargs_tuple] = mod\n", "            moduleCache[name][args][kwargs_tuple] = {}\n            moduleCache[name][args][kwargs_tuple] = mod\n", "R12.6"),
+        T("module-cache-placeholder", "_utils.py", "            moduleCache[baseModule][args][kwargs_tuple] = mod\n", "            moduleCache[baseModule][args][kwargs_tuple] = {}\n            moduleCache[baseModule][args][kwargs_tuple] = mod\n", "R12.6"),
         T("scripting-sticky", "html5parser.py", "        self.scripting = scripting\n", "        if scripting:\n            self.scripting = scripting\n", "R12.7"),
         T("errors-accumulate", "html5parser.py", "        self.firstStartTag = False\n        self.errors = []\n", "        self.firstStartTag = False\n        self.errors = self.errors[:0] if hasattr(self, \"errors\") else []\n", "R12.7"),
-        T("module-cache-literal-guard", "_utils.py", "            if name not in moduleCache:", "            if \"name\" not in moduleCache:", "R12.6"),
+        T("module-cache-keyed-by-name", "_utils.py", "            return moduleCache[baseModule][args][kwargs_tuple]\n        except KeyError:\n            mod = ModuleType(name)\n            objs = factory(baseModule, *args, **kwargs)\n            mod.__dict__.update(objs)\n            if baseModule not in moduleCache:\n                moduleCache[baseModule] = {}\n            if args not in moduleCache[baseModule]:\n                moduleCache[baseModule][args] = {}\n            moduleCache[baseModule][args][kwargs_tuple] = mod",
+          "            return moduleCache[name][args][kwargs_tuple]\n        except KeyError:\n            mod = ModuleType(name)\n            objs = factory(baseModule, *args, **kwargs)\n            mod.__dict__.update(objs)\n            if name not in moduleCache:\n                moduleCache[name] = {}\n            if args not in moduleCache[name]:\n                moduleCache[name][args] = {}\n            moduleCache[name][args][kwargs_tuple] = mod", "R12.5"),
+        T("module-cache-literal-guard", "_utils.py", "            if baseModule not in moduleCache:", "            if \"baseModule\" not in moduleCache:", "R12.6"),
         T("dropnewline-unchecked", "html5parser.py", "            self.tree.openElements[-1].name in (\"pre\", \"listing\", \"textarea\") and\n", "", "R12.1"),
         T("tokenqueue-class-level", "_tokenizer.py", "    def __init__(self, stream, parser=None, **kwargs):\n", "    tokenQueue = deque([])\n\n    def __init__(self, stream, parser=None, **kwargs):\n", "R12.4"),
         T("drop-reset-frameset", "html5parser.py", "        self.beforeRCDataPhase = None\n\n        self.framesetOK = True\n",
